@@ -62,6 +62,12 @@ impl Decoder for FrameCodec {
         use bytes::Buf;
         use serde_amqp::de::Deserializer;
 
+        // A frame is at least 8 bytes; the length prefix has been stripped already
+        if src.len() < 4 {
+            return Err(Error::DecodeError(String::from(
+                "frame is smaller than the frame header",
+            )));
+        }
         let doff = src.get_u8();
         let ftype = src.get_u8();
         let _ignored = src.get_u16();
